@@ -185,11 +185,17 @@ def scenarios(tier: str) -> List[Any]:
                         if engine == "trio" and ctx != "h2full":
                             # trio's own scheduling freedom (batch order / wake order), environment at quiescence
                             out.append((engine, ctx, fr, k, kind, "rev"))
+                        if kind == "raise" and framing in ("cl", "-") and ctx in ("h1_seq", "h2", "ws/h1", "ws/h2", "wsd/h1"):
+                            # the shipped StatsdLogger (config.statsd_host): logging the failure awaits a datagram
+                            # (asyncio: opening the endpoint yields once per worker; trio: every datagram is a
+                            # checkpoint) before the 500 / the reset goes out, and the record itself comes from the
+                            # real Logger.exception through a logging.Logger (mc.core.real_logger_class)
+                            out.append((engine, ctx, fr, k, kind, "statsd"))
     return out
 
 
 def bounds(tier: str, params: Any) -> dict:
-    if len(params) > 5:
+    if params[5:] == ("rev",):
         return {"M": 0, "S": 1, "R": 1} if tier == "quick" else {"M": 0, "S": 2, "R": 2}
     if params[1] == "h2full":  # 20 client events: only the placement of the gate release / sibling matters
         return {"M": 0, "S": 1, "R": 0} if tier == "quick" else {"M": 1, "S": 2, "R": 1 if params[0] == "trio" else 0}
@@ -275,6 +281,8 @@ def build(params: Any) -> tuple:
     sources = [("client", client), ("app", app_src), ("other", other)]
     sc = {"level": "conn", "conns": {0: conn}, "client_factory": make_client, "apps": apps,
           "config": {"keep_alive_timeout": 5}, "sources": sources, "trio_rev": True, "guards": {"later": _later}}
+    if params[5:] == ("statsd",):
+        sc["logger"] = "statsd"
     return engine, sc
 
 
